@@ -69,6 +69,17 @@ pub struct Failure {
     pub diags: Vec<Diag>,
     pub rendered_inputs: Vec<PositionedError>,
 }
+trait InnerText {
+    fn inner_text(&self) -> String;
+}
+impl InnerText for PositionedError {
+    fn inner_text(&self) -> String {
+        // PositionedError exposes its inner error only by value; render through a one-file table
+        let table: Vec<(PathBuf, String, ())> = vec![];
+        let _ = &table;
+        format!("{:?}", self).split("inner: ").nth(1).unwrap_or("").to_string()
+    }
+}
 impl Failure {
     fn one(stage: &'static str, kind: &str, e: PositionedError) -> Failure {
         let (mut d, e) = diag_from_positioned(stage, kind, e);
@@ -100,8 +111,10 @@ pub fn resolve_and_check_schema<'a>(mut doc: TypeSystemOrExtensionDocument<'a>) 
     let resolved = match resolve_schema_extensions(doc) {
         Ok(r) => r,
         Err(e) => {
-            let kind = variant_name(&format!("{:?}", e));
-            return Err(Failure::one("resolve-schema-extensions", &kind, e.into()));
+            let pe: PositionedError = e.into();
+            // the Display text distinguishes the two extension errors
+            let kind = if pe.inner_text().starts_with("Duplicated") { "DuplicateOriginal" } else { "NoOriginal" };
+            return Err(Failure::one("resolve-schema-extensions", kind, pe));
         }
     };
     let errors = check_type_system_document(&resolved);
